@@ -105,6 +105,27 @@ CHECKS = {
             'n <= 33 (thorough 130) in the model; real functions n = 0..40 (140), with/without initial, both methods: results and depths equal the transcription.', 'Free monoid argument.', 'DESIGN.md C32'),
     'C34': ('Recorded secure statistics on real worlds validated by TLC against Stats.tla (integers by definition; fixed point by enclosure)',
             'Data sets of size <= 4 over -3..3 (sampled quick / all thorough), all functions, several pivot seeds; Python statistics cross-checked against the same definitions.', 'Fixed-point tolerances stated per function.', 'DESIGN.md C34'),
+    'C05': ('Recorded secure floating-point results of real party worlds validated by TLC against SecFlt.tla (relative bounds in exact integer arithmetic)',
+            'All pairs from a grid of representable inputs (zero included) of SecFlt(s=8,e=5) (thorough also s=10): input/output within 2u|x|, + - within 16u max(|x|,|y|), * / within 16u of the exact result, comparisons exact beyond that margin, on m in {1,3} (thorough more), receivers all and a proper subset.',
+            'Standard precisions (24/53-bit significands) exceed TLC integers and are not claimed.', 'DESIGN.md C05'),
+    'C17': ('Recorded calls of the real thresha.PRF validated by TLC against Prf.tla (everything around SHAKE-128, which is an uninterpreted function whose digest the harness supplies)',
+            'Random keys and inputs, bounds that are / are not powers of two, n in {None,0,1,2,5}, array shapes in the NumPy venv: bytes per value, little-endian decoding, reduction modulo the bound, counts, scalar form, bound 1; each call repeated (determinism) and compared with the list form; TLC recomputes every output from the digest.',
+            'Bounds < 2^22 so that TLC can redo the arithmetic.', 'DESIGN.md C17'),
+    'C26': ('Recorded find_prime_root results and secure-type field primes validated by TLC against Config.tla (PrimeRootOK, NumFieldOK; overflow-free modular arithmetic)',
+            'Every l in 2..26 (thorough 29) x blum x n in {1,2,3,5,7,11,13}: prime of the right length, p = 3 mod 4 when requested, w of multiplicative order n; SecInt/SecFxp field primes of real worlds (m in 1..7, k in {1,2,4,8}) exceed 2^(l+f+k+1) and m.',
+            'Default-size types (64-bit primes) exceed TLC integers and are not claimed.', 'DESIGN.md C26'),
+    'C33': ('TLC model check of RandomMC over RandomAlg.tla (exact uniformity of the rejection-sampling transcription for every bit supply) + scripted-bit runs of the real code validated against the transcription + range/shape validation on real worlds',
+            'For every n <= 9 (thorough 12) and every supply of bits the outcome is in range and every outcome has the same number of supplies; the real _randbelow / random_unit_vector return the transcription\'s result and consume the same number of bits for every scripted supply; all public functions of mpyc.random have the documented range and shape on m in {1,3,4,5}.',
+            'Uniformity given uniform secret bits.', 'DESIGN.md C33'),
+    'C39': ('Recorded SecFld / setup() calls of real worlds and fresh interpreter processes validated by TLC against Config.tla',
+            'All SecFld argument combinations with order <= 32 (thorough 64), chars 2..9, degrees 1..3, min_order <= 100 on worlds (m,t) up to (7,3): accepted exactly when some GF(p^d) satisfies every constraint, result satisfies all; lifting rule for q <= m; setup() accepts -M m -T t iff 2t < m for all m <= 7, t <= 4.',
+            'Small orders.', 'DESIGN.md C39'),
+    'C27': ('Recorded group operations of every family and coordinate system of mpyc.fingroups validated by TLC against Groups.tla (permutation composition; exponent arithmetic in the cyclic group of the built-in generator; residues; group laws by normal form)',
+            'S_2..S_4 all pairs (S_5 sampled); small QR / Schnorr groups on residues; Ed25519, Ed448, secp256k1, BN256, BN256_twist in affine / projective / extended / jacobian coordinates, hyperelliptic curves of genus 1..3 and kummer1271, class groups, large QR / Schnorr groups: all exponent pairs |e| <= 8 (thorough 24) around g and around a random power of g for @, doubling, ~, ^n, ==, g^order = 1, coordinate conversion, membership of every result; group laws on random elements; decode(encode(m)) = m.',
+            'Exponent window around the generator; encode only for prime fields and messages that fit.', 'DESIGN.md C27'),
+    'C28': ('Opened results of the real secure groups on simulated party worlds validated by TLC against Groups.tla (same specification as C27)',
+            'S_3..S_5 (thorough S_2..S_7), QR, Schnorr, Edwards / Weierstrass curves in every oblivious coordinate system, kummer1271, hyperelliptic curves in Mumford representation (NumPy venv), class groups: @ in all secure/plain operand combinations and aliases, ~, ==, !=, if_else, repeat with public / secret exponents and public / secret bases, repeat_public, decode, elements by conversion and by input from varying senders, on m in {1,3,4} (thorough up to 5, PRSS on/off); all parties open the same element.',
+            'Exponents |e| <= 5; cases that are known never to complete are run once in a world of their own.', 'DESIGN.md C28'),
 }
 NA_REASON = 'check not built yet in this session (planned, see DESIGN.md section 3); not claimed'
 
